@@ -186,6 +186,10 @@ class Run:
             return True, ('\n'.join(head)[:1500] if head else txt[-1500:])
         if rc == 0:
             return False, txt[-800:]
+        if rc in (-6, 134) and re.search(r'[Aa]ssertion.*failed', txt):
+            # an assertion of the real code (BOOST_ASSERT) aborted the replay: the input violates the library's own precondition checks
+            m = re.search(r'[^\n]*[Aa]ssertion[^\n]*failed[^\n]*', txt)
+            return True, 'REPRODUCED: an assertion of the real code failed (abort): ' + (m.group(0) if m else '')[:600]
         return None, 'replay driver exit %s: %s' % (rc, txt[-800:])
 
     def handle_failures(self, unit, inst, check, res, known):
@@ -194,7 +198,7 @@ class Run:
         failed = [o for o in failed if o not in expected]
         if not failed:
             return
-        unl = [o for o in failed if 'undefined function should be unreachable' in (o.desc or '')]
+        unl = [o for o in failed if 'undefined function should be unreachable' in (o.desc or '') or 'no body for callee' in (o.desc or '') or '.no-body.' in o.name]
         if unl:
             # a call the extraction rules did not lower (a new helper in the changed body): an extraction limit, not a property violation
             raise Undecided('the extracted body calls a function the lowering rules do not know (%s); the check cannot decide this variant of the code' % ', '.join(sorted(set(o.name.split('.')[0] for o in unl))))
